@@ -33,6 +33,16 @@ func relayout(rt *rapid.T, o *Opnd, kind, label string) {
 	o.L = genLayoutKind(rt, kind, len(o.Shape), label)
 }
 
+// sameShapeDst: the model of a destination that the library has to reshape counts its elements in
+// row-major order, which is not what reshaping a column-major tensor means: C16 keeps destinations in
+// the result's shape.
+func sameShapeDst(c *EWCase) {
+	if c.Dst != nil && !eqInts(c.Dst.Shape, c.A.Shape) {
+		c.Dst.Shape = cloneInts(c.A.Shape)
+		c.Dst.L = Layout{Root: "rm"}
+	}
+}
+
 func TestC16(t *testing.T) {
 	// ---- elementwise arithmetic (C06) and option modes (C07)
 	for _, op := range arithOps {
@@ -49,6 +59,7 @@ func TestC16(t *testing.T) {
 					c.Via = "pkg"
 				}
 				c = withMode(rt, c, mode, d)
+				sameShapeDst(c)
 				n := 1
 				if c.B != nil {
 					n++
